@@ -185,6 +185,33 @@ PROPS = {
         "level_note": "Trusted: the ray walk in c06_test.go / harness/oracle. Sub-check C06/table reports exhaustive=true; the property as a whole stays 'exploration' because the derived queries range over all positions.",
         "technique": "exhaustive enumeration of line occupancies + property-based testing (rapid) of derived queries against geometric definitions",
     },
+    "C19": {
+        "title": "textual input is handled totally",
+        "run": "^TestC19_",
+        "level": "exploration",
+        "shards": 16,
+        "timeout": 420,
+        "thorough_scale": 10,
+        "fuzz": [("FuzzFEN", 150), ("FuzzMove", 45), ("FuzzEngineMove", 90)],
+        "rule": "C19/fen: strings from a FEN-text generator (canonical FENs of pool/game/synthetic positions; hostile constants whose "
+                "blank runs sum to 64 mod 256 or wrap onto occupied squares; digit runs incl. 0 and 9; Unicode digits/letters; 63/64/65/"
+                "320/576/832-square boards; dropped/duplicated fields; tabs/newlines; signed, huge, fractional clocks; bad e.p. squares; "
+                "odd castling/side fields; 1-4 random character edits; arbitrary strings): fen.Decode must not panic and must return an "
+                "error OR a non-nil position whose views agree and whose re-encoding decodes to the same position/side/clocks. "
+                "C19/move: ParseMove/ParseSquareStr on generated near-moves and arbitrary strings: error or valid squares, valid "
+                "promotion piece, and the accepted text denotes exactly those squares. C19/enginemove: a generated game on an engine, "
+                "then one string (legal move in either letter case, pseudo-legal illegal move, wrong/missing promotion letter, the "
+                "opponent's move, arbitrary text): Engine.Move succeeds iff the lower-cased string is the coordinate text of an "
+                "oracle-legal move; on rejection Engine.Position() and every board observable are unchanged. Thorough adds native "
+                "coverage-guided fuzzing of the same three oracles. Non-trivial = distinct strings that pass the first syntactic gate "
+                "(six space-separated fields / 4-5 runes), i.e. reach the arithmetic. evaluations = strings tried.",
+        "assumptions": COMMON_ASSUMPTIONS + ["both letter cases of file and promotion letters denote the same move (the parsers accept both by design)"],
+        "level_text": "Exploration: ~140k generated strings per quick run, structured to pass the syntactic gates and reach the "
+                      "square arithmetic, each judged by a round-trip / well-formedness / legality oracle; thorough adds ~5 min of "
+                      "native coverage-guided fuzzing seeded with valid FENs and hostile constants.",
+        "level_note": "Trusted: harness/oracle legality for Engine.Move; panics are caught in-process and reported with the input.",
+        "technique": "property-based testing (rapid) with grammar-aware string generators + native go fuzzing (thorough), in-target round-trip and legality oracles",
+    },
 }
 
 # Properties not claimed, with the reason (kept current).
